@@ -316,4 +316,5 @@ func vfShort(q string) string {
 func init() {
 	sql.Register("vfsqlite3", &vfDriver{})
 	vfSQLDriver = "vfsqlite3"
+	vfRepoSQLDriver = "vfsqlite3"
 }
